@@ -23,6 +23,7 @@ GENERATORS = {
     "Satisfy_gen": "translator.gen_satisfy",
     "Classify_gen": "translator.gen_classify",
     "MultiFact_gen": "translator.gen_multifact",
+    "Validate_gen": "translator.gen_validate",
 }
 
 
